@@ -201,6 +201,19 @@ class _Canon:
         return '(%s)' % lin_text(form)
 
     def c_BinOp(self, e):
+        # 'text %s' % 'constant'  and  'a' + 'b'  are the resulting constant
+        if isinstance(e.op, (ast.Mod, ast.Add)) and isinstance(e.left, ast.Constant) and isinstance(e.left.value, (str, bytes)):
+            r = e.right
+            val = None
+            if isinstance(r, ast.Constant) and not isinstance(r.value, type(None)):
+                val = r.value
+            elif isinstance(r, ast.Tuple) and all(isinstance(x, ast.Constant) for x in r.elts):
+                val = tuple(x.value for x in r.elts)
+            if val is not None:
+                try:
+                    return repr(e.left.value % val if isinstance(e.op, ast.Mod) else e.left.value + val)
+                except (TypeError, ValueError):
+                    pass
         if isinstance(e.op, (ast.Add, ast.Sub)):
             # bytes / str concatenation is not commutative: keep order when a
             # bytes/str literal or a known sequence operand is present
